@@ -122,6 +122,36 @@ func c14Stream(r *gen.Rand) (val.Stream, string) {
 	}
 }
 
+// c14Perturbed folds a value of the target type itself (model fold) and
+// replaces ONE sub-value, at any depth, by a value of another shape (null,
+// scalar, array, object): everything before and after the mismatch fits the
+// target, so whatever the unfolder does at the mismatch - refuse it or accept
+// it - the members that follow are delivered into the state it left behind.
+func c14Perturbed(r *gen.Rand, t reflect.Type) (val.Stream, bool) {
+	vg := &gen.ValueGen{R: r, O: gen.GoValueOpts{BadUTF8: true}}
+	pv := vg.Value(t, 0)
+	mv, err := model.Fold(pv, nil)
+	if err != nil {
+		return nil, false
+	}
+	nodes := 0
+	val.Map(mv, func(v val.V) val.V { nodes++; return v })
+	pick, i := r.Intn(nodes), 0
+	obj := val.V{K: val.Obj, Keys: []string{"k"}, A: []val.V{val.VInt(1)}}
+	repl := gen.Pick(r, []val.V{val.VNil(), val.VNil(), val.VBool(true), val.VInt(7), val.VStr("x"), val.VF64(1.5),
+		val.VArr(), val.VArr(val.VInt(1), val.VStr("y")), {K: val.Obj}, obj})
+	mv = val.Map(mv, func(v val.V) val.V {
+		i++
+		if i-1 == pick {
+			return repl
+		}
+		return v
+	})
+	em := &emitter{r: r, refs: true, floatInt: true}
+	em.emit(mv)
+	return em.out, true
+}
+
 type c14Case struct {
 	Type   string     `json:"type"`
 	How    string     `json:"how"`
@@ -144,6 +174,11 @@ func c14Mismatch(c *run.C) {
 	tg := gen.NewTypeGen(r, gen.GoTypeOpts{MaxDepth: 3, InlineStructOnly: true, Extra: zoo.Supported})
 	t := tg.Type(0)
 	s, how := c14Stream(r)
+	if r.P(1, 4) {
+		if ps, ok := c14Perturbed(r, t); ok {
+			s, how = ps, "own-value-with-one-mismatch"
+		}
+	}
 	c.Begin(c14Case{Type: t.String(), How: how, Stream: s})
 	_, target, canary := canaryHolder(t)
 	u, err := gotype.NewUnfolder(target.Interface())
